@@ -145,8 +145,8 @@ func TestC09(t *testing.T) {
 		{Kind: "ordered", NonMinimal: true},
 		{Kind: "permuted", Packed: true, NonMinimal: true, Unknown: 1, UnknownInT: true},
 	}
-	nvi := r.Pick(3, len(c09Vals)*4)
-	perms := r.Pick(1, 8)
+	nvi := r.Pick(6, len(c09Vals)*4)
+	perms := r.Pick(2, 12)
 	for typ := uint64(0); typ < 6; typ++ {
 		for vi := 0; vi < nvi; vi++ {
 			typ, vi := typ, vi
